@@ -364,11 +364,14 @@ theorem legacy_next_column_replaced (c : CryptoOps) (hkey : Option Bytes) (s : P
 /-- a law instance exists: the hypotheses of the theorems above are jointly satisfiable. `Box` has
 injective HMAC (so `NoColl` holds for every `S`); `HashLen` is satisfied by an instance with a
 constant-length hash, with `NoColl` on a finite set of values. -/
-def lenOps : CryptoOps := { boxOps with hmac := fun _ m => (m ++ List.replicate 32 0).take 32 }
+def lenOps : CryptoOps :=
+  { boxOps with hmac := fun _ m => (m ++ List.replicate 32 0).take 32,
+                sha256 := fun m => (m ++ List.replicate 32 0).take 32 }
 
-theorem lenOps_hashLen : (∀ k m, (lenOps.hmac k m).length = 32) := by
-  intro k m
-  simp [lenOps, List.length_take]
+/-- `HashLen` is satisfiable (together with `NoColl` on a finite set, below) -/
+theorem lenOps_hashLen : HashLen lenOps where
+  hmac_len := by intro k m; simp [lenOps, List.length_take]
+  sha_len := by intro m; simp [lenOps, List.length_take]
 
 example : NoColl boxOps [1] (fun _ => True) := by
   intro a b _ _ h
